@@ -78,8 +78,29 @@ def run(ctx):
         ctx.ob("C08.permute", f"mineral={phase}", not diff, f"arguments that change under the permutation: {diff}", mloc)
     ctx.floor("C08.own-phase", 6)
     ctx.floor("C08.permute", 2)
+    bulk(ctx, p, q)
     shared_state(ctx, mloc)
     distinct_histories(ctx, mloc)
+
+
+def bulk(ctx, p, q):
+    """Through update_all: every mineral gets its own phase fraction whatever the order of the mineral list."""
+    ctx.rule("C08.bulk", "update_all: the volume factor recorded for each mineral is the fraction of its own phase, for mineral lists in assemblage order, reversed, and single-mineral subsets")
+    loc = defloc(ctx, "pydrex.minerals.update_all")
+    spec = {"olivine": ("olivine", "olivine_A", "matrix_dislocation"), "enstatite": ("enstatite", "enstatite_AB", "matrix_dislocation")}
+    frac = {"olivine": p, "enstatite": q}
+    for assemblage in (("olivine", "enstatite"), ("enstatite", "olivine")):
+        frs = tuple(frac[a] for a in assemblage)
+        for order in (("olivine", "enstatite"), ("enstatite", "olivine"), ("enstatite",), ("olivine",)):
+            rec, out, exc = driver.run_update_all(ctx, [spec[o] for o in order], assemblage, frs)
+            tag = f"assemblage={assemblage}:minerals={order}"
+            if exc is not None:
+                ctx.ob("C08.bulk", tag, False, f"update_all raises {exc!r}", loc)
+                continue
+            got = [(getattr(ph, "name", ph), vf) for ph, vf, kw in rec]
+            ok = len(got) >= len(order) and all(isinstance(vf, E) and vf == frac[name] for name, vf in got) and {n for n, _ in got} == set(order)
+            ctx.ob("C08.bulk", tag, ok, "volume factors used: " + ", ".join(f"{n}: {short(v)}" for n, v in got), loc)
+    ctx.floor("C08.bulk", 8)
 
 
 def distinct_histories(ctx, mloc):
